@@ -310,6 +310,78 @@ def run_same_key_sequences(ctx: Ctx, apiv: tuple[int, int], methods: list[str], 
             res.inconclusive.append("harness: " + sim.harness_errors[0][-300:])
 
 
+def run_backlogged(ctx: Ctx, apiv: tuple[int, int], framing: str, drain: Any, first: Any) -> None:
+    """Commands issued while the device is NOT reading (its window is closed, the transport queues what it is given - in 3.12 the very objects, or
+    memoryviews of them) and while the queue drains slowly afterwards: every command the client accepted reaches the device as the request the call
+    described, in call order.  `first` is how the kernel treats the first write of the stall ("block" = EAGAIN, ("partial", n) = takes n bytes)."""
+    res = ctx.res
+    vals = values()
+    m = M()
+    with Sim() as sim:
+        s = Session(sim, apiv, framing)
+        sock = s.dev.conn.sock
+        n0 = len(s.dev.conn.received)
+        sock.send_fault = first
+        s.cli.send_voice_assistant_audio(b"\x07" * 5000)
+        sock.send_fault = "block"
+        expected: list[tuple[str, Any, dict[str, Any], dict[str, Any]]] = []
+        idx = 0
+        plan: list[tuple[str, dict[str, Any], dict[str, Any]]] = []
+        for method in REQUEST:
+            opt = vals[method]
+            names = list(opt)
+            reqs = REQUIRED[method](m) if method in REQUIRED else [None]
+            for vc, subset in ((1, tuple(names)), (0, tuple(names)), (2, tuple(names[::2])), (1, ())):
+                rq = reqs[(idx + vc) % len(reqs)]
+                plan.append((method, {a: opt[a][vc] for a in subset}, {rq[0]: rq[1]} if rq else {}))
+        draining = False
+        for method, supplied, required in plan:
+            idx += 1
+            key = 5000 + idx
+            exp = expected_request(method, key, supplied, required, apiv)
+            try:
+                if method == "media_player_command":
+                    s.cli.media_player_command(key, **supplied)
+                elif required:
+                    getattr(s.cli, method)(key, *required.values(), **supplied)
+                else:
+                    getattr(s.cli, method)(key, **supplied)
+            except Exception as e:  # noqa: BLE001
+                res.evaluations += 1
+                res.violation(f"C15/{method}/call-raised/{type(e).__name__}", f"{method}(...) on a live session whose device is reading slowly raised {e!r}",
+                              {"method": method, "supplied": {k: repr(v) for k, v in supplied.items()}, "api_version": list(apiv), "framing": framing,
+                               "backlog": True})
+                continue
+            expected.append((method, exp, supplied, required))
+            if idx == len(plan) // 2:
+                sock.send_fault = drain     # second half of the calls is made while the queue drains a few hundred bytes per loop iteration
+                draining = True
+            if draining or idx % 7 == 0:
+                sim.small_step()
+        sock.send_fault = None
+        sim.run_for(0.5)
+        got = [r for r in s.last(n0) if r["name"] != "VoiceAssistantAudio"]
+        res.count(f"backlog/{framing}/commands_queued_while_device_not_reading", len(expected))
+        case0 = {"api_version": list(apiv), "framing": framing, "backlog": True, "drain": repr(drain), "first": repr(first)}
+        if s.dev.conn.decode_errors or len(got) != len(expected):
+            res.evaluations += 1
+            res.violation("C15/backlog/request-count-or-type", f"{len(expected)} commands were accepted while the device was not reading; when it read again it "
+                          f"decoded {len(got)} requests, decode errors: {s.dev.conn.decode_errors[:2]}", case0)
+        for (method, exp, supplied, required), r in zip(expected, got):
+            res.evaluations += 1
+            res.count("requests_compared")
+            res.sig("backlog", method, tuple(sorted(supplied)), framing)
+            if r["name"] != type(exp).__name__ or r["msg"] is None:
+                res.violation(f"C15/{method}/request-count-or-type", f"queued behind a backlog: device decoded {r['name']}, the call was {method}", {**case0, "method": method})
+                continue
+            if r["msg"] != exp:
+                for field, what in diff(r["msg"], exp)[:4]:
+                    res.violation(f"C15/{method}/{field}/{what.split(':')[0]}", f"{method}({', '.join(f'{k}={v!r:.30}' for k, v in supplied.items())}) queued "
+                                  f"behind a backlog: field {field} {what}", {**case0, "method": method, "supplied": {k: repr(v) for k, v in supplied.items()}})
+        if sim.harness_errors:
+            res.inconclusive.append("harness: " + sim.harness_errors[0][-300:])
+
+
 def judge(ctx: Ctx, s: Session, n0: int, method: str, exp: Any, supplied: dict[str, Any], required: dict[str, Any], vclass: str,
           apiv: tuple[int, int], framing: str) -> None:
     res = ctx.res
@@ -519,6 +591,10 @@ def shard(ctx: Ctx) -> None:
         run_commands(ctx, apiv, ["climate_command", "fan_command"], "plain")
     run_commands(ctx, (1, 10), ["fan_command", "siren_command", "media_player_command", "cover_command", "lock_command", "switch_command"], "noise")
     run_same_key_sequences(ctx, (1, 10), list(REQUEST), "plain")
+    for j, (framing, drain, first) in enumerate((("plain", ("rate", 400), ("partial", 1000)), ("noise", ("rate", 300), ("partial", 1500)),
+                                                 ("plain", None, "block"), ("noise", ("rate", 5000), "block"))):
+        if ctx.mine(9000 + j):
+            run_backlogged(ctx, (1, 10), framing, drain, first)
     if thr:
         run_same_key_sequences(ctx, (1, 4), list(REQUEST), "noise")
         for apiv in ((1, 2), (1, 3), (1, 9), (2, 0)):
